@@ -378,6 +378,9 @@ OnRet0(s, e) ==
             \cup (IF e.res \in {"stack", "verify"} /\
                      ((~pending /\ o.rej # e.res) \/ (pending /\ ~(s.mon.active /\ s.mon.g = e.g /\ s.mon.n = e.n /\ s.mon.outcome = e.res)))
                   THEN {V(s, e, "C07_ErrMismatch")} ELSE {})
+            \* told "nil" although the view read right after the call does not verify (verification never delayed in this scenario:
+            \* SkipInitialVerification only skips the first Verify, every later report must still be verified)
+            \cup (IF e.res = "nil" /\ ~s.delay /\ ~ValidXY(e.cfgx, e.cfgy) THEN {V(s, e, "C07_NilForFailing")} ELSE {})
             \cup (IF e.res = "ctx" /\ ~ctxOk THEN {V(s, e, "C07_CtxNotCancelled")} ELSE {})
             \cup (IF ~(e.res \in {"nil", "stack", "verify", "ctx"}) THEN {V(s, e, "C07_UnknownResult")} ELSE {})
             \cup (IF late /\ e.res = "nil" THEN {V(s, e, "C08_LateCallSucceeded")} ELSE {}))
